@@ -186,6 +186,25 @@ func analyse(fset *token.FileSet, rel string, pkg *types.Package, files []*ast.F
 			if fname == "autolayout.go" && fn == "Layout" {
 				facts.Protocol = layoutProtocol(fset, fd)
 			}
+			// parameters and receivers of slice or map type: writing an element through them changes the caller's data
+			isParam := map[*types.Var]bool{}
+			addParams := func(fl *ast.FieldList) {
+				if fl == nil {
+					return
+				}
+				for _, f := range fl.List {
+					for _, n := range f.Names {
+						if v, ok := info.Defs[n].(*types.Var); ok {
+							switch v.Type().Underlying().(type) {
+							case *types.Slice, *types.Map:
+								isParam[v] = true
+							}
+						}
+					}
+				}
+			}
+			addParams(fd.Recv)
+			addParams(fd.Type.Params)
 			var guards []string
 			written := map[*ast.Ident]bool{}
 			var walk func(n ast.Node)
@@ -211,14 +230,39 @@ func analyse(fset *token.FileSet, rel string, pkg *types.Package, files []*ast.F
 				case *ast.AssignStmt:
 					for _, l := range x.Lhs {
 						markWrites(l, written)
+						if root := elemWriteRoot(l); root != nil {
+							if v, ok := info.Uses[root].(*types.Var); ok && isParam[v] {
+								facts.Sites = append(facts.Sites, site(fset, "paramwrite", pkg, fname, fn, x))
+							}
+						}
 					}
 				case *ast.IncDecStmt:
 					markWrites(x.X, written)
+					if root := elemWriteRoot(x.X); root != nil {
+						if v, ok := info.Uses[root].(*types.Var); ok && isParam[v] {
+							facts.Sites = append(facts.Sites, site(fset, "paramwrite", pkg, fname, fn, x))
+						}
+					}
 				case *ast.UnaryExpr:
 					if x.Op == token.AND {
 						markWrites(x.X, written) // taking the address of a global counts as a write
 					}
 				case *ast.RangeStmt:
+					// an element of a caller-owned slice of slices (or map of slices) is caller-owned too
+					if root := rootIdent(x.X); root != nil {
+						if v, ok := info.Uses[root].(*types.Var); ok && isParam[v] {
+							for _, kv := range []ast.Expr{x.Key, x.Value} {
+								if id, ok := kv.(*ast.Ident); ok {
+									if dv, ok := info.Defs[id].(*types.Var); ok {
+										switch dv.Type().Underlying().(type) {
+										case *types.Slice, *types.Map:
+											isParam[dv] = true
+										}
+									}
+								}
+							}
+						}
+					}
 					if tv, ok := info.Types[x.X]; ok && isMap(tv.Type) {
 						body := src(fset, x)
 						facts.Sites = append(facts.Sites, Site{Kind: "maprange", Pkg: pkg.Path(), File: fname, Func: fn, Line: fset.Position(x.Pos()).Line, Text: body, Hash: hash(body), Type: tv.Type.String()})
@@ -331,6 +375,50 @@ func pkgRel(path, rel string) string {
 		return rel
 	}
 	return path
+}
+
+// root identifier of an element write x[i] = ..., x[i][j] = ..., x[i].f = ... (nil for plain variables)
+func elemWriteRoot(e ast.Expr) *ast.Ident {
+	seenIndex := false
+	for {
+		switch x := e.(type) {
+		case *ast.IndexExpr:
+			seenIndex = true
+			e = x.X
+		case *ast.SelectorExpr:
+			e = x.X
+		case *ast.ParenExpr:
+			e = x.X
+		case *ast.StarExpr:
+			e = x.X
+		case *ast.Ident:
+			if seenIndex {
+				return x
+			}
+			return nil
+		default:
+			return nil
+		}
+	}
+}
+
+func rootIdent(e ast.Expr) *ast.Ident {
+	for {
+		switch x := e.(type) {
+		case *ast.IndexExpr:
+			e = x.X
+		case *ast.SelectorExpr:
+			e = x.X
+		case *ast.ParenExpr:
+			e = x.X
+		case *ast.StarExpr:
+			e = x.X
+		case *ast.Ident:
+			return x
+		default:
+			return nil
+		}
+	}
 }
 
 func markWrites(e ast.Expr, written map[*ast.Ident]bool) {
